@@ -73,7 +73,7 @@ class Names:
 
 
 def worker(version, args):
-    common.lib_setup()
+    common.lib_setup(xs_check=True)
     from AoE2ScenarioParser.scenarios.aoe2_de_scenario import AoE2DEScenario
     from AoE2ScenarioParser.datasets import effects as eff_ds, conditions as cond_ds
     rng = random.Random(f"C05:{args['seed']}:{version}")
